@@ -69,3 +69,12 @@ Theorem C02_annotation_names_owning_pool : forall rank s a o k v,
   cv_status v <> [] /\ cv_annot v = pool_of (cv_mem v) s /\
   exists pn p, cv_annot v = Some pn /\ find_pool (s_pools (cv_mem v)) pn = Some p.
 Proof. intros rank s a o k v. exact (converge_ok_annot rank s a o k v). Qed.
+
+(* a LoadBalancer Service that requests specific addresses and converges holds
+   exactly those (as a set); the only other outcome is the PreferDualStack gain on
+   top of a single requested address, finding F22 (KNOWN-FINDING) *)
+Theorem C02_explicit_ips_exact : forall rank a s o k v d,
+  converge rank a s o k = CR v true -> o_lb o = true -> o_want o = WIps d ->
+  same_ips (cv_status v) d \/
+  (exists have x, same_ips d [have] /\ cv_status v = [have; x] /\ additional_applies (o_req o) [have] = true).
+Proof. exact explicit_ips_exact. Qed.
